@@ -43,6 +43,15 @@ def showW : Except Gmx.RoleNames.WErr (List Nat) → String
 
 def fstrEngine (args : List String) : String :=
   match args with
+  | ["tcupd", ns] =>
+    -- comma-separated hex names, applied as successive updates to one (zeroed) token config
+    match (ns.splitOn ",").mapM pHex with
+    | some names =>
+      if names.all utf8Valid then
+        joinSp ((Gmx.RoleNames.tcScenario (List.replicate 32 0) names).map fun (o, r) =>
+          o ++ ":" ++ (match r with | .ok b => showHex b | .error _ => "unreadable"))
+      else "bad-op"
+    | none => "bad-op"
   | ["rolescn", n] =>
     match pHex n with
     | some n => if utf8Valid n then joinSp (Gmx.RoleNames.scenario n) else "bad-op"
